@@ -22,17 +22,21 @@ def cells(tier, seed):
         shapes = [(1, ()), (2, ()), (3, ())]
         bshapes = [(2, (2,)), (2, (1,)), (2, (2, 1)), (1, (2,))]
         groups = ["dense", "matmul", "rmatmul", "transpose", "bcast"]
+    two_batch = {"Interpolated", "Sum(Interp,Dense)", "Toeplitz", "Kronecker", "BatchRepeat", "Diag", "BlockDiag", "Sum", "ConstantMul"}
     for name, b in BUILDERS.items():
         if name in EXCLUDE:
             continue
-        for n, batch in shapes + bshapes:
+        extra = [(2, (2, 2))] if (name in two_batch and tier == "quick") else []
+        for n, batch in shapes + bshapes + extra:
             if n < b.min_n:
                 continue
             if name in ("Permutation",) and n not in (1, 2, 3, 4):
                 continue
             if name in ("BlockDiagDim", "TransposePermutation") and (batch != () or n > 2):
                 continue
-            if "nested" in b.tags and (n > 2 or len(batch) > 1):
+            if "nested" in b.tags and (n > 2 or (len(batch) > 1 and name not in two_batch)):
+                continue
+            if "fixedbatch" in b.tags and (n != 2 or batch):
                 continue
             if "eig" in b.tags and (n != 2 or batch):
                 continue
